@@ -48,8 +48,8 @@ def ipOptSize (opts : List (Nat × Bytes)) : Nat :=        -- IP::calculate_opti
   -- `!is_single_byte_option`: copied != 0 || op_class != CONTROL || number > NOOP (fix KF-C02-Ip-1: same test as the writer)
   opts.foldl (fun acc (t, d) => acc + 1 + (if t / 128 % 2 ≠ 0 ∨ t / 32 % 4 ≠ 0 ∨ t % 32 > 1 then 1 + d.length else 0)) 0
 
-def tcpOptSize (opts : List (Nat × Bytes)) : Nat :=       -- TCP::calculate_options_size
-  opts.foldl (fun acc (t, d) => acc + 1 + (if d.length ≠ 0 ∨ t = 4 then 1 + d.length else 0)) 0
+def tcpOptSize (opts : List (Nat × Bytes)) : Nat :=       -- TCP::calculate_options_size (every kind > NOP has a length octet)
+  opts.foldl (fun acc (t, d) => acc + 1 + (if t > 1 then 1 + d.length else 0)) 0
 
 def ip6ExtPad (d : Bytes) : Nat :=                        -- IPv6::get_padding_size
   let p := (d.length + 2) % 8
